@@ -430,6 +430,11 @@ func (an *c17G5An) skipTest(fn *c17Fn, e ast.Expr, depth int) (ast.Expr, int) {
 			k, pol := an.skipTest(fn, x.X, depth)
 			return k, -pol
 		}
+	case *ast.IndexExpr:
+		// a set kept as map[osm.WayID]bool is tested by indexing
+		if c17FieldOf(info, x.X) == an.o.skip && c17IsBool(info.TypeOf(x)) {
+			return x.Index, 1
+		}
 	case *ast.Ident:
 		o := objOf(info, x)
 		if o == nil {
